@@ -564,10 +564,10 @@ def main(run):
     thorough = run.tier == "thorough"
     exe, bh = build_tomldrv()
     rng = run.rng
-    N_RT = 3000 if thorough else 420
-    N_FILE = 6000 if thorough else 700
-    N_MUT = 2000 if thorough else 250
-    N_DEC = 1500 if thorough else 250
+    N_RT = 2000 if thorough else 380
+    N_FILE = 4000 if thorough else 620
+    N_MUT = 1200 if thorough else 250
+    N_DEC = 1000 if thorough else 250
     run.rule = ("a case is one file content given to ParseTOMLFile (model and implementation compared as maps / error kind) or "
                 "one table given to WriteTOMLFile (file bytes compared with the model, then read back and compared with the "
                 "table itself); counted distinct by sha256 of the canonical input; trivial = empty file")
@@ -576,7 +576,8 @@ def main(run):
     run.assumptions = [
         "H1: strconv.ParseFloat(FormatFloat(x,'f',-1,64)) == x for finite x, also after appending \".0\" to a text without '.' (checked on every generated float)",
         "H2: FormatFloat(x,'f',-1,64) of a finite x consists of digits, at most one '.', an optional leading '-' (checked on every generated float)",
-        "string values are valid UTF-8 (TOML text); an ill-formed byte is rewritten to U+FFFD by the rune loop of stripInlineComment (modelled, outside the theorem's domain)",
+        "string values are valid UTF-8 (TOML text); an ill-formed byte is rewritten to U+FFFD by the rune loop of stripInlineComment (modelled and covered by the correspondence, outside the theorem's domain)",
+        "keys are printable ASCII without '=', not starting with '#' or '['; inline comments are any bytes without LF",
         "the model describes the tree with fixes/C20-integral-float.patch and fixes/C20-long-line.patch applied",
         "file system behaviour (os.Create/Open, bufio.Scanner line splitting) is modelled as a byte string split at LF",
     ]
@@ -710,8 +711,10 @@ def main(run):
                  sample={"file": fb.decode("utf8", "replace"), "parsed": "ok" if r[0] == "ok" else r[0] + ":" + str(r[1])[:40]} if (kind == "malformed" and 8 < len(fb) < 60 and j % 7 == 0) else None)
         run.count("file_" + kind); run.count("parse_" + (r[0] if r[0] != "err" else "err_" + r[1]))
         if r[0] == "panic":
-            run.violation("panic:" + hashlib.sha256(fb).hexdigest()[:16], "ParseTOMLFile panics: %s" % r[1][:150],
-                          {"kind": "parse", "file_hex": fb.hex()[:8000], "file": fb.decode("utf8", "replace")[:2000], "panic": r[1]})
+            if ("panic:" + r[1][:60]) not in reported:
+                reported.add("panic:" + r[1][:60])
+                run.violation("panic:" + hashlib.sha256(fb).hexdigest()[:16], "ParseTOMLFile panics: %s" % r[1][:150],
+                              {"kind": "parse", "file_hex": fb.hex()[:8000], "file": fb.decode("utf8", "replace")[:2000], "panic": r[1]})
         elif r[0] == "err" and r[1] != "invalid" and ("perr:" + r[1]) not in reported:
             reported.add("perr:" + r[1])
             run.violation("parse-error:%s:%s" % (r[1], hashlib.sha256(fb).hexdigest()[:16]),
@@ -730,7 +733,7 @@ def main(run):
                                "parsed_decorated": show_data(r[1]) if r[0] == "ok" else list(r)})
 
     # ---- correspondence with the model (Coq, vm_compute)
-    nshard = 6 if thorough else 4
+    nshard = 12 if thorough else 4
     shard_pool = ThreadPoolExecutor(max_workers=nshard)
     pcs = [(j, fb, pres[j]) for j, (_, fb, _) in enumerate(files) if pres[j][0] == "ok" or (pres[j][0] == "err" and pres[j][1] == "invalid")]
     ft = "[" + ";".join("(%d,%s)" % (u, cq_bytes(ftexts[u].encode())) for u in floats) + "]"
@@ -743,7 +746,7 @@ def main(run):
             if not sh_[k]: return True, "= [] : list bytes"
             body = HEAD + "Definition files : list bytes := [\n" + ";\n".join(cq_bytes(fb) for _, fb, _ in sh_[k]) + "].\n" + \
                 "Eval vm_compute in (List.concat (List.map float_texts files)).\n"
-            return coq_eval("c20_p1_%d_%d" % (os.getpid(), k), body, timeout=300)
+            return coq_eval("c20_p1_%d_%d" % (os.getpid(), k), body, timeout=600)
         out = set()
         for ok, o in shard_pool.map(one, range(nshard)):
             lst = parse_nested(o) if ok else None
@@ -765,7 +768,7 @@ def main(run):
             body += "Definition ps : list pcase := [\n" + ";\n".join(
                 "(%d,%s,%s)" % (1000000 + j, cq_bytes(fb), cq_expect(r)) for j, fb, r in psh[k]) + "].\n"
             body += "Eval vm_compute in (bad_ids ft pt ws ps).\n"
-            return coq_eval("c20_p2_%d_%d" % (os.getpid(), k), body, timeout=300)
+            return coq_eval("c20_p2_%d_%d" % (os.getpid(), k), body, timeout=600)
         bad = []
         for ok, o in shard_pool.map(one, range(nshard)):
             ids = common.parse_bad_ids(o) if ok else None
@@ -835,8 +838,9 @@ def main(run):
             ncorr["p"] += 1
             if ncorr["p"] > (1 if already else 3): continue
             run.violation("parse-corr:" + hashlib.sha256(fb).hexdigest()[:20],
-                          "ParseTOMLFile and the reader model (Models/Toml.v parse_file) disagree on a %s file; no table of the writable domain "
-                          "was found on which the round trip itself fails" % kind,
+                          "ParseTOMLFile and the reader model (Models/Toml.v parse_file) disagree on a %s file%s" % (
+                              kind, " (a failing input of the property is reported separately)" if already else
+                              "; no table of the writable domain was found on which the round trip itself fails"),
                           {"kind": "parse-correspondence", "correspondence": "pcase_ok", "file": fb.decode("utf8", "replace")[:3000],
                            "file_hex": fb.hex()[:8000], "implementation": show_data(pres[j][1]) if pres[j][0] == "ok" else list(pres[j])},
                           no_input=True)
